@@ -237,14 +237,24 @@ func (e *busloadExec) Do(line string) string {
 			e.fail("zero-baud-nonzero-load", line)
 		}
 	} else {
+		// sizes and cycle times as the model reports them through its getters
 		tot := 0.0
-		for _, s := range specs {
-			c := s.cyc
-			if c == 0 {
-				c = def
+		for _, ni := range ifs {
+			for _, m := range ni.SentMessages() {
+				c := m.CycleTime()
+				if c == 0 {
+					c = def
+				}
+				bits := 8*m.SizeByte() + 19 + 25 + (34+8*m.SizeByte()-1)/4
+				tot += float64(bits) / float64(c) * 1000
 			}
-			bits := 8*s.size + 19 + 25 + (34+8*s.size-1)/4
-			tot += float64(bits) / float64(c) * 1000
+		}
+		for j, sp := range specs {
+			for m, id := range ids {
+				if id == j && (m.SizeByte() != sp.size || m.CycleTime() != sp.cyc) {
+					e.fail("message-fields-changed", sprintf("%s: message %d reports size %d cycle %d", line, j, m.SizeByte(), m.CycleTime()))
+				}
+			}
 		}
 		if !close9(load, tot/float64(baud)*100) {
 			e.fail("load-vs-sum", sprintf("%s: load %g want %g", line, load, tot/float64(baud)*100))
